@@ -218,6 +218,8 @@ func rels(s []int) { fmt.Println("d", s[0], s[1], s[2]) }
 
 func relm(m map[int]int) { fmt.Println("d", len(m), m[0]) }
 
+func printg() { fmt.Println("g", g0, g1, t.a, t.b, arr[0], arr[1]) }
+
 func show(x interface{}) {
 	if n, ok := x.(int); ok {
 		fmt.Println("rec", n)
@@ -620,7 +622,7 @@ func (r *rend) stmt(s *N) {
 	case "print":
 		r.line("fmt.Println(\"p\", %d, %s)", s.ID, Expr(s.E))
 	case "printg":
-		r.line("fmt.Println(\"g\", g0, g1, t.a, t.b, arr[0], arr[1])")
+		r.line("printg()") // a package-level function: a local may be named like a package variable
 	case "discard":
 		r.line("%s", Expr(s.E))
 	case "blankcall":
